@@ -78,10 +78,13 @@ func (s *raceSink) Write(p []byte) (int, error) {
 	s.bump()
 	s.calls++
 	if s.failEvery > 0 && s.calls%s.failEvery == 0 {
-		if (s.calls/s.failEvery)%2 == 0 {
+		switch (s.calls / s.failEvery) % 3 {
+		case 0:
 			return 0, errC09device
+		case 1:
+			return len(p) / 2, errC09device
 		}
-		return len(p) / 2, errC09device
+		return len(p) / 2, nil // a short count without an error
 	}
 	return len(p), nil
 }
